@@ -82,4 +82,45 @@ theorem hasCycle_of_chain (vars : List Rule) (v : Rule) (hv : v ∈ vars) (hvar 
   have h1 := chain_reachN vars chain (refsOf vars (vName v)) y hy hc (vName v) hend
   exact reachN_le vars chain.length vars.length _ hlen _ h1
 
+/-! ### … and only those: the test does not reject a preamble without a closed chain -/
+
+theorem chain_append (vars : List Rule) : ∀ (c1 : List (List Char)) (x m : List Char) (c2 : List (List Char)),
+    Chain vars x c1 → (x :: c1).getLast? = some m → Chain vars m c2 → Chain vars x (c1 ++ c2)
+  | [], x, m, c2, _, hl, h2 => by
+    simp only [List.getLast?_singleton, Option.some.injEq] at hl
+    subst hl
+    simpa using h2
+  | y :: rest, x, m, c2, h1, hl, h2 => by
+    obtain ⟨hy, hr⟩ := h1
+    have hl' : (y :: rest).getLast? = some m := by rw [List.getLast?_cons_cons] at hl; exact hl
+    exact ⟨hy, chain_append vars rest y m c2 hr hl' h2⟩
+
+/-- whatever `reachN` holds is the end of a chain that starts in the set it was given -/
+theorem reachN_chain (vars : List Rule) : ∀ (n : Nat) (s : List (List Char)) (x : List Char), x ∈ reachN vars n s →
+    ∃ y ∈ s, ∃ chain, Chain vars y chain ∧ (y :: chain).getLast? = some x
+  | 0, s, x, hx => ⟨x, hx, [], trivial, by simp⟩
+  | n + 1, s, x, hx => by
+    rw [reachN] at hx
+    obtain ⟨y', hy', chain, hc, hl⟩ := reachN_chain vars n _ x hx
+    rw [List.mem_eraseDups] at hy'
+    rcases List.mem_append.mp hy' with hy' | hy'
+    · exact ⟨y', hy', chain, hc, hl⟩
+    · rw [List.mem_flatMap] at hy'
+      obtain ⟨z, hz, hzy⟩ := hy'
+      refine ⟨z, hz, y' :: chain, ⟨hzy, hc⟩, ?_⟩
+      rw [List.getLast?_cons_cons]; exact hl
+
+/-- **The cycle test reports only cycles**: when it says yes there is a variable rule and a chain of direct references that
+leads from one of the names it refers to back to its own name. -/
+theorem chain_of_hasCycle (vars : List Rule) (h : hasCycle vars = true) :
+    ∃ v ∈ vars, isVar v = true ∧ ∃ y ∈ refsOf vars (vName v), ∃ chain, Chain vars y chain ∧
+      (y :: chain).getLast? = some (vName v) := by
+  unfold hasCycle at h
+  rw [List.any_eq_true] at h
+  obtain ⟨v, hv, hc⟩ := h
+  simp only [Bool.and_eq_true, List.contains_eq_mem, decide_eq_true_eq] at hc
+  obtain ⟨hvar, hmem⟩ := hc
+  obtain ⟨y, hy, chain, hch, hl⟩ := reachN_chain vars vars.length _ _ hmem
+  exact ⟨v, hv, hvar, y, hy, chain, hch, hl⟩
+
 end Aa
